@@ -491,8 +491,8 @@ def check_b(case: dict[str, Any], ctx: Any = None) -> list[str]:
 
 
 def run_shard(ctx: Any) -> None:
-    n_a = 60 if ctx.tier == "quick" else 1500
-    n_b = 40 if ctx.tier == "quick" else 1000
+    n_a = 100 if ctx.tier == "quick" else 1500
+    n_b = 70 if ctx.tier == "quick" else 1000
     ctx.run_machine(make_machine(ctx), n_a, 35 if ctx.tier == "quick" else 60, salt="A")
 
     @given(b_cases())
